@@ -87,10 +87,18 @@ TEXTS = {
     '/*c*/ tv, print': [_T['tv'], _T['print']],
     'SCREEN, screen': [_T['SCREEN'], _T['screen']],
     'tv, ALL': [_T['tv'], _T['ALL']],
+    # a malformed member behind 'all' (which makes the rest redundant, not unchecked); malformations the query parser notices late
+    'all, 3d': None,
+    'all, print and (color:)': None,
+    'ALL, tv and (min-width:), tv': None,
+    'all, not': None,
+    'tv, print and': None,
 }
 TEXT_CLASS = {
     'screen, print': 'plain', 'tv, screen, tv': 'duplicate', 'print, all, tv': 'all-inside', 'screen, 3d': 'malformed-member',
     '': 'empty', '/*c*/ tv, print': 'comment', 'SCREEN, screen': 'duplicate-case', 'tv, ALL': 'all-upper-inside',
+    'all, 3d': 'malformed-member-behind-all', 'all, print and (color:)': 'malformed-member-behind-all', 'ALL, tv and (min-width:), tv': 'malformed-member-behind-all',
+    'all, not': 'malformed-member-behind-all', 'tv, print and': 'malformed-member',
 }
 OWNERS = ['alone', 'media', 'import']
 SEEDS = ['default', 'screen, print']
@@ -248,10 +256,17 @@ def _apply(w, op):
         w.ml().deleteMedium(op[1])
     elif k == 'set':
         w.ml()[op[1]] = op[2]
-    elif k == 'text':
-        w.ml().mediaText = op[1]
-    elif k == 'wrap':
-        w.rule.media = op[1]
+    elif k in ('text', 'wrap'):
+        quiet = op[-1] == 'quiet'
+        try:
+            if quiet:
+                cssutils.log.raiseExceptions = False  # the mode every parse runs in: errors are logged, the text is refused all the same
+            if k == 'text':
+                w.ml().mediaText = op[1]
+            else:
+                w.rule.media = op[1]
+        finally:
+            cssutils.log.raiseExceptions = True
     else:
         raise ValueError(op)
 
@@ -580,6 +595,10 @@ def _transition(res, history, op, cap):
                               f'raises {out[1]}', note=f'list before: {before[0]["text"]!r}')
                 ok = False
             impl_accepted = out[0] == 'ok'
+            if op[-1] == 'quiet' and impl_accepted:
+                # log-only mode: a refusal is silent; the text (always a malformed one here) counts as accepted if anything changed
+                # (the wellformed flag reports the outcome of the last attempt in that mode and is not part of the content)
+                impl_accepted = ({k: v for k, v in o.items() if k != 'wellformed'}, otext) != ({k: v for k, v in before[0].items() if k != 'wellformed'}, before[1])
             if ok and impl_accepted != accepted:
                 verdict = 'accepted-but-must-be-rejected' if impl_accepted else f'rejected-but-must-be-accepted|{out[1] if out[0] == "dom" else "IndexError"}'
                 res.violation('C17.accept', f'{verdict}|{argsig}', case, 'accepted' if accepted else 'rejected', list(out),
@@ -588,7 +607,9 @@ def _transition(res, history, op, cap):
             if not impl_accepted:
                 res.counters['rejected_transitions'] += 1
                 res.clauses['C17.reject.unchanged'] += 1
-                if (o, otext) != before:
+                if op[-1] == 'quiet':
+                    pass  # judged above
+                elif (o, otext) != before:
                     diff = [k for k in o if o[k] != before[0][k]] or ['owner-text']
                     res.violation('C17.reject.unchanged', f'state-changed-by-rejected-operation|{diff[0]}|{argsig}', case, before[0], o)
                     ok = False
@@ -623,6 +644,44 @@ def _transition(res, history, op, cap):
         return _key(owner, o, otext), m2.length <= cap
 
 
+def _parsed_owner_clause(res):
+    """the same list texts inside a parsed sheet (log-only mode): a malformed list - wherever the malformed member stands -
+    takes its rule with it, a well-formed one is the model's list"""
+    for t, entries in TEXTS.items():
+        if not t:
+            continue
+        for owner, src in (('media', '@media %s {a{color:red}}' % t), ('import', '@import "x.css" %s;' % t)):
+            case = {'kind': 'parsed', 'owner': owner, 'text': t, 'sheet': src}
+            res.evaluations += 1
+            res.transitions += 1
+            res.validated += 1
+            res.clauses['C17.parsed'] += 1
+            guard.pristine()
+            try:
+                with guard.watchdog(10):
+                    sheet = _parse(src)
+                    out = sheet.cssText.decode('utf-8')
+                    rules = [r for r in sheet.cssRules if r.type in (r.MEDIA_RULE, r.IMPORT_RULE)]
+                    got = _observe(rules[0].media) if rules else None
+            except guard.Timeout:
+                res.violation('C17.accept', f'timeout|parsed-{owner}|{TEXT_CLASS[t]}', case, 'terminates', 'timeout')
+                continue
+            except Exception as e:
+                res.violation('C17.accept', f'{guard.crash_site(e)}|parsed-{owner}|{TEXT_CLASS[t]}', case, 'a sheet', repr(e)[:200])
+                continue
+            res.outcomes.add(h64(['parsed', owner, TEXT_CLASS[t], bool(out)]))
+            if entries is None:
+                if out.strip():
+                    res.violation('C17.accept', f'accepted-but-must-be-rejected|parsed-{owner}|{TEXT_CLASS[t]}', case, 'the rule is dropped', out)
+            else:
+                m = ref.RefMediaList()
+                m.set_text(entries)
+                if got is None or not out.strip():
+                    res.violation('C17.accept', f'rejected-but-must-be-accepted|parsed-{owner}|{TEXT_CLASS[t]}', case, m.text(), out)
+                elif _nocomment(got['text']) != m.text():
+                    res.violation('C17.model', f'parsed-list-differs-from-model|parsed-{owner}|{TEXT_CLASS[t]}', case, m.text(), got['text'])
+
+
 def expand(batch, tier, seed):
     res = Result(seed)
     cap = _cap(tier)
@@ -630,6 +689,7 @@ def expand(batch, tier, seed):
         h = [list(op) for op in h]
         if not h:
             ops = [['seed', ow, sd] for ow in OWNERS for sd in SEEDS]
+            _parsed_owner_clause(res)
         else:
             guard.pristine()
             w, m = _build(h)
@@ -1265,6 +1325,13 @@ def replay(case, tier, seed):
     k = case['kind']
     if k == 'history':
         _transition(res, [list(o) for o in case['history']], list(case['op']), _cap(tier))
+    elif k == 'parsed':
+        full = Result(seed)
+        _parsed_owner_clause(full)
+        for sig, v in full.violations.items():
+            if v['case'] == case:
+                res.violations[sig] = v
+                res.violation_counts[sig] += 1
     elif k == 'list':
         _judge_list(res, case)
     elif k == 'query':
